@@ -11,6 +11,9 @@ import Proofs.VdrReclaim
 import Proofs.VdrExample
 import Proofs.VdrTmp
 import Martian.VdrFs
+import Martian.VdrBuild
+import Proofs.VdrBuild
+import Proofs.VdrListed
 
 namespace Props.C14
 open Martian.Vdr
@@ -152,7 +155,126 @@ theorem reclaim_needs_consistency :
     (run c s [.removeEmpty, .cacheMap, .nodeDone "C", .kill]).disk.map (·.path) = ["/p/files/a".toList] := by
   decide
 
+/-! ### listed paths are gone -/
+
+/-- **listed_paths_gone.**  For every configuration (volatile, strict,
+splitting or not) and under every interleaving: no entry with a path listed
+in the kill report is left on disk (temp cleaning lists the top-level entries
+of the phase's temp directories, `vdrKillSome` the collapsed kill paths,
+`vdrKill` the chunk-level files).  `PathKinds`: a path is one entry (entries
+with equal paths are of the same kind). -/
+theorem listed_paths_gone (c : Cfg) (s0 : St) (evs : List Ev) (h0 : s0.report.paths = [])
+    (hu : PathKinds s0.disk) :
+    ∀ p ∈ (run c s0 evs).report.paths, ∀ d ∈ (run c s0 evs).disk, d.path ≠ p := by
+  have l0 : LInv s0 := ⟨fun p hp => (by rw [h0] at hp; cases hp), hu⟩
+  exact (l0.run evs).gone
+
+/-- … and they stay gone whatever happens afterwards (the model's event
+language has no event that writes; a retry that re-creates a path is a reset
+of the fork, after which a new report is begun). -/
+theorem listed_paths_stay_gone (c : Cfg) (s0 : St) (evs more : List Ev) (h0 : s0.report.paths = [])
+    (hu : PathKinds s0.disk) :
+    ∀ p ∈ (run c s0 evs).report.paths, ∀ d ∈ (run c s0 (evs ++ more)).disk, d.path ≠ p := by
+  intro p hp d hd
+  have hrun : run c s0 (evs ++ more) = run c (run c s0 evs) more := by
+    unfold run; rw [List.foldl_append]
+  rw [hrun] at hd
+  exact listed_paths_gone c s0 evs h0 hu p hp d ((shr_run c (run c s0 evs) more).disk d hd)
+
+/-- a listed path is removed together with everything below it when it was
+listed by `vdrKillSome` (the per-file pass of volatile forks): collapsing the
+kill paths loses nothing, no entry at or below a listed path is left. -/
+theorem killed_paths_gone_with_contents (s : St) (es : List Entry) :
+    ∀ p ∈ collapse [] (((es.filter (fun e => e.args.isEmpty)).map (·.path)).mergeSort pathLe),
+      ∀ d ∈ (killCore s es).disk, pathIsInside d.path p = false := by
+  intro p hp d hd
+  rcases collapse_sub [] _ p hp with h | h
+  · cases h
+  · rw [List.mem_mergeSort] at h
+    unfold killCore at hd
+    simp only [List.mem_filter] at hd
+    cases hin : pathIsInside d.path p with
+    | false => rfl
+    | true =>
+      have hk : ((List.map (fun x => x.path) (List.filter (fun e => e.args.isEmpty) es)).any
+          fun k => pathIsInside d.path k) = true := by
+        rw [List.any_eq_true]; exact ⟨p, h, hin⟩
+      have := hd.2
+      simp only [hk] at this
+      cases this
+
+/-- `PathKinds` is needed in the model only because its disk is a list: with
+two entries of one path and different kinds, cleaning one kind lists the path
+while the other entry stays (a file system has one entry per path). -/
+theorem listed_needs_one_entry_per_path :
+    let c : Cfg := { volatile := false, strict := false, splits := false, argNames := [], argFiles := [] }
+    let s : St := { fileArgs := [], postNodes := [],
+                    disk := [⟨"/p/x".toList, 1, .tmp 1, []⟩, ⟨"/p/x".toList, 1, .out, []⟩] }
+    (run c s [.early 2]).report.paths = ["/p/x".toList] ∧
+    (run c s [.early 2]).disk.map (·.path) = ["/p/x".toList] := by decide
+
+/-! ### `BK` is what the construction establishes -/
+
+/-- **built_bookkeeping_consistent.**  The tables `attachToFileParents` /
+`setupRetains` / `buildForks` give the forks of any node of a pipestance
+(model: `build (opsOf tr)`, compared with the real tables on every run)
+satisfy the bookkeeping invariant `BK`; a fork starting with them is fresh
+and not final.  (`wfOps`: decided by the driver for every pipestance built.) -/
+theorem built_bookkeeping_consistent (tr : PTree) (w : wfOps [] [] (opsOf tr) = true) (p : Node) (t : Tab)
+    (h : (p, t) ∈ build (opsOf tr)) (disk : List DiskEnt) :
+    BK (t.st disk) ∧ Fresh (t.st disk) ∧ (t.st disk).final = false ∧
+      (t.st disk).report.count = 0 ∧ (t.st disk).report.size = 0 :=
+  ⟨(build_bk w h).st disk, ⟨rfl, rfl⟩, rfl, rfl, rfl⟩
+
+/-- **reclaims_all_unreferenced_built.**  `reclaims_all_unreferenced` without
+the assumption `BK`: for a volatile fork that starts with the constructed
+tables, after any history in which its post nodes completed, the
+complete-state pass leaves only what the top level or a retain references. -/
+theorem reclaims_all_unreferenced_built (tr : PTree) (w : wfOps [] [] (opsOf tr) = true) (p : Node) (t : Tab)
+    (h : (p, t) ∈ build (opsOf tr)) (c : Cfg) (disk : List DiskEnt) (evs : List Ev)
+    (ok : CfgOK c (t.st disk)) (wf : DiskWF disk) (hv : c.volatile = true)
+    (hdone : ∀ q ∈ t.postNodes, q.1 ∈ (run c (t.st disk) evs).doneNodes) :
+    (run c (t.st disk) (evs ++ [.kill])).final = true ∧
+    ∀ d ∈ (run c (t.st disk) (evs ++ [.kill])).disk, isTmp d.kind = false →
+      ∃ a, Holds (t.st disk) a none ∧ refsN c a (d.path :: d.alts) = true :=
+  reclaims_all_unreferenced c (t.st disk) evs ok wf ⟨rfl, rfl⟩ ⟨rfl, rfl⟩ hv ((build_bk w h).st disk) rfl hdone
+
+/-- **clone_keeps_consistency.**  Dynamic fork expansion: the fork `cloneFork`
+makes of a consistent fork — at construction or after any history of the
+original — is consistent, fresh and not final. -/
+theorem clone_keeps_consistency (s : St) (disk : List DiskEnt) (k : BK s) :
+    BK (cloneFork s disk) ∧ Fresh (cloneFork s disk) ∧ (cloneFork s disk).final = false :=
+  ⟨cloneFork_bk k disk, ⟨rfl, rfl⟩, rfl⟩
+
+theorem clone_after_history_consistent (c : Cfg) (s0 : St) (evs : List Ev) (ok : CfgOK c s0)
+    (wf : DiskWF s0.disk) (fr : Fresh s0) (h0 : s0.report.count = 0 ∧ s0.report.size = 0)
+    (hv : c.volatile = true) (bk : BK s0) (hf : s0.final = false) (disk : List DiskEnt) :
+    BK (cloneFork (run c s0 evs) disk) := by
+  obtain ⟨_, r⟩ := joint_run ok wf hv (XInv.init s0 fr h0) (RInv.init c s0 fr bk hf) evs
+  exact cloneFork_bk r.bk disk
+
 /-! ### non-vacuity -/
+
+/-- `listed_paths_gone` is not vacuous: a non-volatile splitting fork lists the
+temp entries and the chunk file it removed -/
+example :
+    let c : Cfg := { volatile := false, strict := false, splits := true, argNames := [], argFiles := [] }
+    let s : St := { fileArgs := [], postNodes := [],
+                    disk := [⟨"/p/c0/files/x".toList, 4, .chunk, []⟩, ⟨"/p/j/files/o".toList, 9, .out, []⟩,
+                             ⟨"/p/j/tmp/t".toList, 3, .tmp 2, []⟩, ⟨"/p/c0/tmp/d".toList, 4096, .tmp 1, []⟩] }
+    s.report.paths = [] ∧ PathKinds s.disk ∧
+    (run c s [.early 2, .kill]).report.paths =
+      ["/p/c0/tmp/d".toList, "/p/j/tmp/t".toList, "/p/c0/files/x".toList] := by
+  refine ⟨rfl, ?_, by decide⟩
+  intro d hd d' hd' e
+  simp at hd hd'
+  rcases hd with rfl | rfl | rfl | rfl <;> rcases hd' with rfl | rfl | rfl | rfl <;>
+    first | rfl | (exact absurd e (by decide))
+
+/-- the construction yields tables (for node `A` of `exTree`: one consumer, one retain) -/
+example : wfOps [] [] (opsOf exTree) = true ∧ ((build (opsOf exTree)).lookup "A").isSome = true := by
+  constructor <;> decide
+
 
 example :
     mergeEvents [⟨3000000000, -5⟩, ⟨1000000000, 7⟩, ⟨1000000500, 2⟩, ⟨3000000001, -1⟩] =
